@@ -296,6 +296,10 @@ theorem parseBlock_fuel_suffices (G : Grammar) (ts : List Sx) (f : Nat) (out : L
     (h : statements G (staleOf ts) f ts = some out) : parseBlock G ts = some out :=
   statements_complete G (staleOf ts) ts out (statements_sound _ _ _ _ _ h) _ (Nat.le_refl _)
 
+/-- non-vacuity: `statements` does return with a fuel other than `parseBlock`'s -/
+example : (statements documented (staleOf [.sym "a", .semi, .sym "b"]) 7 [.sym "a", .semi, .sym "b"]).isSome = true := by
+  decide +kernel
+
 /-- The repaired full statement: every table and grammar in correspondence, every token list of the fragment
 (at every depth), the CONCRETE fuel of both executable models. -/
 def PrattEqStratifiedRepaired : Prop :=
@@ -308,6 +312,10 @@ unconsumed rest, or both `none` — and then neither returns with any fuel. From
 and the two termination measures. -/
 theorem pratt_eq_stratified : PrattEqStratifiedRepaired :=
   fun _ _ _ hC ts hfr => expression_eq_parse_of_corr hC ts hfr
+
+/-- non-vacuity: a table/grammar pair in correspondence exists (the one of the working tree), with a token list of its fragment -/
+example : Corr Table.generated documented bpsG ∧ Frag Table.generated documented [.sym "a", .sym "+", .sym "b", .arr [.lab "i"]] :=
+  ⟨corr_generated, frag_of_B (by decide +kernel)⟩
 
 /-- … for the table regenerated from the working tree and the documented levels. -/
 theorem pratt_eq_stratified_generated (ts : List Sx) (h : inFragmentB ts = true) :
